@@ -95,6 +95,9 @@ def check(ctx):
         from ..report import include
         include(ctx, "C06")
         include(ctx, "C14")
+        # "which copy of a weighted level of a factor outside the crossing was chosen": the copies exist only if the weight
+        # desugaring expands exactly the factors outside every crossing (C23's clauses)
+        include(ctx, "C23")
 
     mod = sys.modules[__name__]
     control(ctx, mod, "record only the preamble and round components",
